@@ -37,6 +37,30 @@ Theorem C08_nodes_and_parents_preserved : forall v f,
 Proof. exact F_nodes_parents. Qed.
 Print Assumptions C08_nodes_and_parents_preserved.
 
+(* ... and conversely every kept node keeps its place: top-level stays top-level,
+   a child of p stays a child of p (ancestry preserved in both directions) *)
+Theorem C08_kept_nodes_keep_their_place : forall v f, NoDup (ids f) ->
+  (forall c, In c (map rid f) -> In c (ids (F v f)) -> In c (map rid (F v f))) /\
+  (forall p c, child_in f p c -> In c (ids (F v f)) -> child_in (F v f) p c).
+Proof. exact F_places_kept. Qed.
+Print Assumptions C08_kept_nodes_keep_their_place.
+
+(* the ingredients of [kept], declaratively: reached = every proper ancestor answered
+   True / False(None); listed in pre-order; visited = the reached nodes before the first stop *)
+Theorem C08_reached_declarative : forall v f, NoDup (ids f) ->
+  forall n, In n (reach v f) <-> exists t, In t (pre_f f) /\ rid t = n /\ all_open v f t.
+Proof. exact reach_decl. Qed.
+Print Assumptions C08_reached_declarative.
+
+Theorem C08_reached_in_preorder : forall v f, sublist (reach v f) (ids f).
+Proof. exact reach_order. Qed.
+Print Assumptions C08_reached_in_preorder.
+
+Theorem C08_visited_declarative : forall v f n,
+  In n (visited v f) <-> exists a b, reach v f = a ++ n :: b /\ has_stop v (a ++ [n]) = false.
+Proof. exact visited_decl. Qed.
+Print Assumptions C08_visited_declarative.
+
 (* ---- the in-place form -------------------------------------------- *)
 Theorem C08_inplace_is_F : forall v f, NoDup (ids f) -> filter_inplace v f = F v f.
 Proof. exact filter_inplace_is_F. Qed.
@@ -67,6 +91,19 @@ Print Assumptions C08_branch_inplace_nodes.
 Theorem C08_copy_is_dbl_F : forall v f nx, same_modulo_ids (fst (add_filtered v f nx)) (dbl v (F v f)).
 Proof. exact add_filtered_is_dbl_F. Qed.
 Print Assumptions C08_copy_is_dbl_F.
+
+(* the nodes of the copy are new nodes with consecutive allocation indices in
+   pre-order: every node of the copy exists exactly once *)
+Theorem C08_copy_nodes_fresh : forall v f nx,
+  ids (fst (add_filtered v f nx)) = seq nx (length (ids (fst (add_filtered v f nx)))) /\
+  snd (add_filtered v f nx) = nx + length (ids (fst (add_filtered v f nx))).
+Proof. exact add_filtered_ids. Qed.
+Print Assumptions C08_copy_nodes_fresh.
+
+Theorem C08_copy_once_each : forall v f,
+  NoDup (ids (filtered v f)) /\ ids (filtered v f) = seq 1 (length (ids (filtered v f))).
+Proof. exact filtered_fresh. Qed.
+Print Assumptions C08_copy_once_each.
 
 (* Node.filtered / Node.copy(predicate=) of a branch: the start node on top *)
 Theorem C08_branch_copy : forall v t,
